@@ -370,8 +370,20 @@ def oracle_iteration(ctx: Ctx, case):
     if n != E * (L + S):
         raise AssertionError("harness: unexpected number of stored rows")  # C05's business; the objective below needs all rows
     r = np.asarray(rows["rewards"], np.float64)
-    terminated = np.asarray(rows["dones"], bool) & ~np.asarray(rows["timeouts"], bool)
-    fl = {"timeout": bool(np.asarray(rows["timeouts"]).any()), "terminated": bool(terminated.any()), "ordinary": bool((~np.asarray(rows["dones"], bool)).any())}
+    # "terminated" is the environment's terminal predicate on the successor state (decoded from the stored successor
+    # observation), not the buffer's own done/timeout columns: a row that terminates *and* hits the time limit must not bootstrap
+    interp = mdp.Interp(spec)
+    terminated = np.asarray([bool(interp.T[interp.decode_obs(jax.tree.map(lambda x, i=i: np.asarray(x)[i], rows["next_observations"]))[0]]) for i in range(n)])
+    # rows are in insertion order per environment (no wrap-around here), so the episode clock can be replayed
+    at_limit, per_env = np.zeros(n, bool), n // E
+    for e in range(E):
+        c = 0
+        for i in range(e * per_env, (e + 1) * per_env):
+            c += 1
+            at_limit[i] = c >= spec["time_limit"]
+            if bool(np.asarray(rows["dones"])[i]):
+                c = 0
+    fl = {"timeout": bool(np.asarray(rows["timeouts"]).any()), "terminated": bool(terminated.any()), "ordinary": bool((~np.asarray(rows["dones"], bool)).any()), "terminated_at_time_limit": bool((terminated & at_limit).any())}
     obs, nobs = jax.tree.map(jnp.asarray, rows["observations"]), jax.tree.map(jnp.asarray, rows["next_observations"])
     if name == "DQN":
         sts, nsts = jax.tree.map(jnp.asarray, rows["states"]), jax.tree.map(jnp.asarray, rows["next_states"])
